@@ -60,7 +60,7 @@ func runC05(c *an.Ctx) {
 		c.Anchor("C05.if", "case NodeIf / case NodeRange in executeList")
 		return
 	}
-	in := func(cc *ast.CaseClause, n ast.Node) bool { return cc.Pos() <= n.Pos() && n.End() <= cc.End() }
+	in := func(cc *ast.CaseClause, n ast.Node) bool { return inArm(el, cc, n) }
 	argOf := func(call *ast.CallExpr) string {
 		if len(call.Args) == 0 {
 			return ""
@@ -193,7 +193,7 @@ func runC05(c *an.Ctx) {
 
 	// structural part of C05.if: then in the true branch of isTrue(condition), else in its false branch
 	okShape := false
-	ast.Inspect(ifCC, func(n ast.Node) bool {
+	armInspect(el, ifCC, func(n ast.Node) bool {
 		is, ok := n.(*ast.IfStmt)
 		if !ok || strings.ReplaceAll(an.Str(is.Cond), " ", "") != "isTrue(st.evalPrimaryExpressionGroup(node.Expression))" {
 			return true
@@ -220,7 +220,7 @@ func runC05(c *an.Ctx) {
 		"the if arm does not execute its then-list under isTrue(condition) and its else-list in the else of that very test")
 
 	// loop condition: conjuncts other than !end
-	ast.Inspect(rangeCC, func(n ast.Node) bool {
+	armInspect(el, rangeCC, func(n ast.Node) bool {
 		fs, ok := n.(*ast.ForStmt)
 		if !ok || fs.Cond == nil {
 			return true
@@ -245,7 +245,7 @@ func runC05(c *an.Ctx) {
 
 	// two-variable range over an index-less ranger
 	okTwo := false
-	ast.Inspect(rangeCC, func(n ast.Node) bool {
+	armInspect(el, rangeCC, func(n ast.Node) bool {
 		is, ok := n.(*ast.IfStmt)
 		if !ok || strings.ReplaceAll(an.Str(is.Cond), " ", "") != "!ranger.ProvidesIndex()" {
 			return true
